@@ -42,7 +42,11 @@ impl<T: Copy, const CAPACITY: usize> StackStack<T, CAPACITY> {
 /// "foo/./bar" => "foo/bar".
 /// These paths can show up due to variable expansion in particular.
 pub fn canonicalize_path(path: &mut String) {
-    assert!(!path.is_empty());
+    if path.is_empty() {
+        // An empty path (e.g. from an undefined variable) stays empty; it
+        // names no file, which callers report in their own way.
+        return;
+    }
     let mut components = StackStack::<usize, 60>::new();
 
     // Safety: we will modify the string by removing some ASCII characters in place
